@@ -16,7 +16,7 @@ from .world import World, LIB_AXIOMS
 
 VERIF = os.path.dirname(os.path.dirname(os.path.abspath(__file__)))
 
-CONTRACT_MODULES = ['contracts.base', 'contracts.adb_message', 'contracts.transport', 'contracts.iomanager', 'contracts.store', 'contracts.helpers', 'contracts.device']
+CONTRACT_MODULES = ['contracts.base', 'contracts.adb_message', 'contracts.transport', 'contracts.iomanager', 'contracts.store', 'contracts.helpers', 'contracts.device', 'contracts.filesync']
 
 
 def load_contracts():
@@ -45,6 +45,8 @@ _RUN = None
 
 def _gen_worker(task):
     key, twin, variant = task
+    import faulthandler
+    faulthandler.dump_traceback_later(240, repeat=True)
     run = _RUN
     c = dsl.CONTRACTS[key]
     out = {'function': None, 'obligations': [], 'covers': [], 'undecided': [], 'used_axioms': [], 'sf_axioms': [], 'paths': 0, 'fchecks': 0}
@@ -71,6 +73,7 @@ def _gen_worker(task):
         out['undecided'].append(('%s[%s]' % (c.key, twin), 'stale contract or missing function: %r' % (e,)))
     except RecursionError:
         out['undecided'].append(('%s[%s]' % (c.key, twin), 'recursion limit'))
+    faulthandler.cancel_dump_traceback_later()
     out['used_axioms'] = sorted(w.used_axioms)
     out['sf_axioms'] = sorted(SF.USED_AXIOMS)
     return out
